@@ -4,6 +4,7 @@ import (
 	"crypto/sha256"
 	"encoding/hex"
 	"fmt"
+	"strings"
 
 	. "rdmverif/engine"
 	"rdmverif/svc"
@@ -72,6 +73,12 @@ func validCorpus(level int) []CorpusReq {
 			out = append(out, CorpusReq{Name: name + "/anchoring>fatigue>omission", Req: withBiases(root, []M{core[7], core[3], core[0]}), Valid: true})
 			out = append(out, CorpusReq{Name: name + "/concealment>mixing>reversal", Req: withBiases(root, []M{core[4], core[6], core[1]}), Valid: true})
 		}
+		// tie variant: all three criteria equally important under every documented importance (equal weights,
+		// equal column sums), so that any order-of-iteration dependence in rankings becomes visible
+		tie := tieRequest(m)
+		for i, b := range biasAlphabet(0) {
+			out = append(out, CorpusReq{Name: fmt.Sprintf("%s/ties/%s#%d", m, biasLabel(b), i), Req: withBiases(tie, []M{b}), Valid: true})
+		}
 	}
 	return out
 }
@@ -93,4 +100,37 @@ func Fingerprint() string {
 	}
 	h := sha256.Sum256([]byte(Dump(roots)))
 	return hex.EncodeToString(h[:12])
+}
+
+// tieRequest: six criteria that tie pairwise in weight and in summed considered values.
+func tieRequest(method string) M {
+	cids := critIDs(6)
+	var crits L
+	for _, id := range cids {
+		crits = append(crits, crit(id, "gain"))
+	}
+	vals := map[string][]float64{"a": {1, 2, 3, 1, 2, 3}, "b": {3, 2, 1, 3, 2, 1}, "c": {2, 2, 2, 2, 2, 2}}
+	var ka L
+	for _, id := range []string{"a", "b", "c"} {
+		cv := map[string]float64{}
+		for j, c := range cids {
+			cv[c] = vals[id][j]
+		}
+		ka = append(ka, alt(id, cv))
+	}
+	w := map[string]float64{}
+	for _, c := range cids {
+		w[c] = 2
+	}
+	var mp M
+	if method == "choquetIntegral" {
+		caps := M{}
+		for _, sub := range subsetsOf(cids) {
+			caps[strings.Join(sub, ",")] = float64(len(sub)) / 8
+		}
+		mp = M{"weights": caps}
+	} else {
+		mp = methodParams(method, cids, w, false)
+	}
+	return M{"preferenceFunction": method, "knownAlternatives": ka, "choseToMake": L{"a", "b"}, "criteria": crits, "methodParameters": mp, "biasApplyRandomSeed": 1}
 }
